@@ -109,11 +109,21 @@ class C03(FprCheck):
             pick = sorted(order)
             if order == pick:
                 order = list(reversed(order))
+            # conformer ids: sequential, all equal (what Mol.AddConformer(conf) does by default when a molecule is assembled
+            # from single-conformer records), or arbitrary - a conformer is identified by its position, not by its id
+            idmode = rr.choice(["sequential", "all-zero", "arbitrary"])
+            self.count("conformer-ids:" + idmode)
+
             def sub(ids):
                 m = Chem.Mol(mol)
                 m.RemoveAllConformers()
                 for j in ids:
-                    m.AddConformer(Chem.Conformer(mol.GetConformer(j)), assignId=True)
+                    c = Chem.Conformer(mol.GetConformer(j))
+                    if idmode == "sequential":
+                        m.AddConformer(c, assignId=True)
+                    else:
+                        c.SetId(0 if idmode == "all-zero" else 7 * j + 3)
+                        m.AddConformer(c, assignId=False)
                 return m
             mol, m2 = sub(pick), sub(order)
             order = [pick.index(j) for j in order]
